@@ -80,7 +80,7 @@ CLAIMED['C12'] = dict(design='2/C12', text='Instance::log_encode is executed sym
     'a single-integer range gives a constant, every error condition gives Err within the step budget.',
     note='R-model; libm log2 bracketing assumption listed in evidence; the defect found (no termination for an infinite bound) was repaired by a fix: commit.')
 CLAIMED['C13'] = dict(design='2/C13', text='convert_inequality_to_equality_with_integer_slack and add_integer_slack_to_inequality (with content_factor, evaluate_bound, Bound arithmetic, '
-    'as_integer_bound, relax_constraint) are executed on linear and bilinear constraints with listed concrete integer/dyadic coefficients, symbolic integer boxes in [-3,3], symbolic integer '
+    'as_integer_bound, relax_constraint) are executed on linear and bilinear constraints with listed concrete integer/dyadic coefficients, variables listed in ascending or non-ascending id order, symbolic integer boxes in [-3,3], symbolic integer '
     'points: z3 proves f(x)<=0 <=> some integer slack inside the new bound satisfies the new equality (closed form s=-f(x)/b), the projection property and reported b for the additive slack, '
     'always-true => moved unchanged and really always true on the box, infeasible error => never true on the box, and that rejected calls leave the instance unchanged.',
     note='R-model; coefficients concrete (Rational64::approximate_float is a concrete model, differentially validated); non-dyadic rationals outside; the defect found (equality constraints '
@@ -92,7 +92,9 @@ CLAIMED['C16'] = dict(design='2/C16', engine='kani+mirsym', technique='Kani/CBMC
     'pointwise result and stay valid. Engine M: the real bodies of Bound::mul, Bound::pow(0..6) and Function::evaluate_bound are executed with every endpoint in {-inf, symbolic, +inf} and '
     'symbolic points in the box: z3 proves enclosure and validity (no NaN endpoint, ordered, no unwrap panic).',
     note='Two known findings (Bound + Bound and Bound * f64 panic when finite endpoints near f64::MAX overflow) are detected by full-range Kani probes each run and printed as KNOWN-FINDING; '
-    'content_factor minimality is not solver-decided (concrete only, see evidence); rounding monotonicity outside the R-model half.')
+    'the "smallest multiplier" clause (Function::content_factor) is NOT solver-decided: the real body is executed from MIR on every concrete coefficient tuple over a 17-element pool '
+    '(4 function shapes) against lcm(denominators)/gcd(numerators) — bounded exhaustive exploration, labelled as such in evidence; approximate_float is a binary64 port validated natively each run; '
+    'rounding monotonicity outside the R-model half.')
 CLAIMED['C17'] = dict(design='2/C17', text='The MPS parser state machine (read_header, read_row_field, read_column_field, read_rhs_field, read_range_field, read_bound_field, finish, '
     'from_lines) and mps::convert::* are executed from MIR on files rendered by an independent writer from abstract models (2 columns x 2 rows, every row type, 14 bound scenarios, '
     'positive/negative ranges, objective constant, sense, integer markers, several layouts); all numbers are symbolic reals carried through the text as tokens. z3 proves the imported '
